@@ -114,6 +114,20 @@ func c05More() []*Scenario {
 				},
 				func(s *harness.SchedWorld) { s.MutSet("m", bs("b"), 5, bs("b1")); s.MutDelete("m", bs("a")) },
 			}},
+		{Name: "S15-flush-vs-setcollection", Desc: "collections m (unflushed change, written first) and n (two items, flushed): flusher [Flush] || mutator [SetCollection(n) on the existing name, SetCollection(m)]: replacing a handle publishes no new version, so the root record of that Flush must still hold both collections with their contents",
+			Setup: func(s *harness.SchedWorld) {
+				s.AddColl("m")
+				s.AddColl("n")
+				s.SeqSet("m", bs("a"), 2, bs("a0"))
+				s.SeqSet("n", bs("y"), 2, bs("y0"))
+				s.SeqSet("n", bs("z"), 1, bs("z0"))
+				s.SeqFlush()
+				s.SeqSet("m", bs("b"), 3, bs("b0"))
+			},
+			Threads: []func(s *harness.SchedWorld){
+				func(s *harness.SchedWorld) { s.FFlush() },
+				func(s *harness.SchedWorld) { s.MutSetCollection("n"); s.MutSetCollection("m") },
+			}},
 		{Name: "S13-stats", Desc: "mutator [Set b, Delete a] || reader [AllocStats + Stats, Get c, AllocStats]: the statistics calls take the free-list locks that the mutator's release path also takes",
 			Setup: setup3(false),
 			Threads: []func(s *harness.SchedWorld){
